@@ -14,20 +14,26 @@
   * `stats_exact` — `stats()` returns exactly the totals of the allocation state (free frames,
     entirely free huge frames, entirely free trees); `stats_at_tree_exact`;
   * `fast_counters_exact` — in every reachable state the fast counters (tree entry + local
-    reservations on the tree) add up to exactly the free frames of the tree, unless the tree is
-    hidden by `Offline` (then to at most that): "fast = exact − offline" tree by tree.
+    reservations on the tree) plus the frames of the tree hidden by `Offline` (`H i`, exact
+    ghost accounting of the upper invariant) are exactly the free frames of the tree:
+    "fast = exact − offline" tree by tree.
 
-  PARTIAL: that the *programs* `tree_stats()` / `validate()` sum these counters without panic
-  (loops over slots with the saturating correction of F9) is carried by the correspondence; the
-  statement "at the end of every concurrent interleaving" is a theorem for the lower level
-  (`conc_quiescent_counters_exact`: once all threads are done every huge-entry counter equals the
-  number of zero bits of its bitfield again) and not for the tree counters. Carried by the correspondence: statistics, `stats_at`, `is_free`,
+  * `tree_stats_total` / `fast_total_exact` — the program `tree_stats()` never panics, reads only,
+    and its free total plus the frames hidden by `Offline` equals the exact total that `stats()`
+    reports: **fast = exact − offline as numbers**, in every invariant state (a partition
+    argument: the present slots visited class by class are exactly those counted per tree);
+  * `conc_quiescent_counters_exact` — at the quiescent end of every interleaving of threads using
+    the lower allocator every huge-entry counter is exact again.
+
+  PARTIAL: `validate()`, `stats_at(order 0)` / `is_free` and the tree counters at the end of
+  concurrent interleavings are carried by the correspondence (statistics, `stats_at`, `is_free`,
   `tree_stats` and `validate()` compared with the ownership model after every call of every
-  sequential history and at the quiescent end of every explored interleaving.
+  sequential history and at the quiescent end of every explored interleaving).
 -/
 import LLFreeV.Proofs.UpperInit
 import LLFreeV.Proofs.OwnLowerThreads
 import LLFreeV.Proofs.TreeStats
+import LLFreeV.Proofs.FastTotal
 namespace LLFree.C04
 open LLFree Prog
 
@@ -128,6 +134,15 @@ theorem tree_stats_total (c : Cfg) (H : Nat → Nat) (ok : CfgOk c) (m : Mem) (i
     Runs m (treeStats c) (fun s m' => m = m' ∧
       ∃ s0, runSolo (Trees.stats c) m = (m, .ok s0) ∧ s.freeFrames = s0.freeFrames + slotSum c m) :=
   (treeStats_spec c m ok inv).mono (fun _ _ h => ⟨h.1, h.2.2.2⟩)
+
+/-- **Fast = exact − offline, as program outputs**: in every state satisfying the upper
+    invariant (every state of every sequential history of a constructed allocator),
+    `tree_stats().free_frames` plus the frames hidden by `Offline` (Σ_i `H i`) is the exact number
+    of free frames — the number `stats()` returns (`stats_exact`). With no offline tree the fast
+    and the exact free counts are equal. -/
+theorem fast_total_exact (c : Cfg) (H : Nat → Nat) (ok : CfgOk c) (m : Mem) (inv : UpperInv0 c H m) :
+    Runs m (treeStats c) (fun s m' => m = m' ∧ s.freeFrames + blockSum H c.ntrees = m.freeTotal c.geom c.ntrees) :=
+  LLFree.fast_total_exact c m ok inv
 
 /-- **Quiescent end of every interleaving (lower level)**: when all threads have finished their
     calls, every huge-entry counter is exactly the number of free frames of its bitfield. -/
